@@ -381,6 +381,13 @@ func runC04(r *hx.Result, rng *hx.Rng, thorough bool, replay string) error {
 	if replay != "" {
 		return c04Replay1(r, replay, thorough, f1)
 	}
+	if os.Getenv("VH_C04_STAGE") == "compact" { // development switch: the interleaved-compaction stage alone
+		n := 15
+		if thorough {
+			n = 150
+		}
+		return c04CompactStage(r, rng.Fork(), thorough, f1, time.Now().Add(10*time.Minute), n)
+	}
 	c04ProbeOverrun(r)
 	c04ScriptedProbes(r, rng.Fork(), f1)
 	if err := r.Flush(); err != nil {
@@ -407,6 +414,14 @@ func runC04(r *hx.Result, rng *hx.Rng, thorough bool, replay string) error {
 		return err
 	}
 	drng := rng.Fork()
+	// compaction interleaved with writers (c04compact.go); forked after drng so that the older stages keep their inputs
+	nCompact, compactFor := 15, 25*time.Second
+	if thorough {
+		nCompact, compactFor = 80, 2*time.Minute
+	}
+	if err := c04CompactStage(r, rng.Fork(), thorough, f1, time.Now().Add(compactFor), nCompact); err != nil {
+		return err
+	}
 	dbDeadline := time.Now().Add(20 * time.Second)
 	if thorough {
 		dbDeadline = time.Now().Add(3 * time.Minute)
@@ -868,6 +883,7 @@ func c04Replay1(r *hx.Result, path string, thorough bool, f1 bool) error {
 		Replay struct {
 			Kind string `json:"kind"`
 			Seed uint64 `json:"case_seed"`
+			CaseNo int  `json:"caseNo"`
 			Cfg  *c04Cfg `json:"cfg"`
 		} `json:"replay"`
 		Seed   string `json:"seed_str"`
@@ -882,6 +898,14 @@ func c04Replay1(r *hx.Result, path string, thorough bool, f1 bool) error {
 	}
 	if f.Replay.Kind == "db-case" {
 		c04DBCase(r, hx.NewRng(0), 0, thorough, f1) // db cases are re-derived from the run seed; replay the stage
+		return r.Flush()
+	}
+	if strings.HasPrefix(f.Replay.Kind, "compact-probe") {
+		c04CompactProbes(r)
+		return r.Flush()
+	}
+	if f.Replay.Kind == "compact-case" {
+		c04CompactCaseSeed(r, seed, f.Replay.CaseNo, thorough, f1)
 		return r.Flush()
 	}
 	caseNo := f.CaseNo
